@@ -2299,3 +2299,95 @@ func ruleEmbeddedMessageTypes(c *Ctx, rule string) {
 		"the client expects the embedded-message fields for every subtype the backend supplies them for ("+strings.Join(all, ", ")+")",
 		"the backend supplies (and the server writes) envelope, nested structure and line count for message/"+strings.Join(missing, ", message/")+", but the client's parser does not expect them for that subtype: the response fails to parse and the whole FETCH is lost")
 }
+
+// ruleCopySnapshotComplete: C09.l. When the backend builds an options struct
+// itself to re-insert a message (COPY/MOVE snapshot → AppendOptions), it sets
+// every field that the inserting code reads: a field left out silently takes
+// the insert path's default (INTERNALDATE becomes "now").
+func ruleCopySnapshotComplete(c *Ctx, rule string) {
+	p := c.P
+	funcs := p.SrcFuncs("imapserver/imapmemserver")
+	// fields of module option structs read in the package
+	read := map[*types.Named]map[*types.Var]bool{}
+	for _, fn := range funcs {
+		allInstrs(fn, func(i ssa.Instruction) {
+			fa, ok := i.(*ssa.FieldAddr)
+			if !ok {
+				return
+			}
+			r, ok := fieldOf(fa)
+			if !ok || r.Owner == nil || !strings.HasSuffix(r.Owner.Obj().Name(), "Options") || isFreshLocal(fa.X) {
+				return
+			}
+			for _, ref := range *fa.Referrers() {
+				if u, ok := ref.(*ssa.UnOp); ok && u.Op == token.MUL {
+					if read[r.Owner] == nil {
+						read[r.Owner] = map[*types.Var]bool{}
+					}
+					read[r.Owner][r.Field] = true
+				}
+			}
+		})
+	}
+	n := 0
+	for _, fn := range funcs {
+		// snapshot structs: an options struct nested in a struct literal of
+		// the package (messageCopy{options: imap.AppendOptions{…}})
+		type key struct {
+			outer ssa.Value
+			fld   *types.Var
+		}
+		set := map[key]map[*types.Var]bool{}
+		owner := map[key]*types.Named{}
+		pos := map[key]token.Pos{}
+		allInstrs(fn, func(i ssa.Instruction) {
+			st, ok := i.(*ssa.Store)
+			if !ok {
+				return
+			}
+			inner, ok := st.Addr.(*ssa.FieldAddr)
+			if !ok {
+				return
+			}
+			outerFA, ok := inner.X.(*ssa.FieldAddr)
+			if !ok {
+				return
+			}
+			ri, ok1 := fieldOf(inner)
+			ro, ok2 := fieldOf(outerFA)
+			if !ok1 || !ok2 || ri.Owner == nil || read[ri.Owner] == nil || ro.Owner == nil || ro.Owner.Obj().Pkg() == nil || !strings.HasSuffix(ro.Owner.Obj().Pkg().Path(), "/imapmemserver") {
+				return
+			}
+			if !isFreshLocal(outerFA.X) {
+				return
+			}
+			k := key{outerFA.X, ro.Field}
+			if set[k] == nil {
+				set[k] = map[*types.Var]bool{}
+			}
+			set[k][ri.Field] = true
+			owner[k] = ri.Owner
+			if !pos[k].IsValid() {
+				pos[k] = instrPos(st)
+			}
+		})
+		for k, fields := range set {
+			nm := owner[k]
+			n++
+			var missing []string
+			for f := range read[nm] {
+				if !fields[f] {
+					missing = append(missing, f.Name())
+				}
+			}
+			sort.Strings(missing)
+			c.check(len(missing) == 0, rule, fmt.Sprintf("%s: %s nested in %s", fnKey(fn), nm.Obj().Name(), k.fld.Name()), pos[k],
+				"sets every field the backend reads from such a value",
+				"the "+nm.Obj().Name()+" built here leaves out "+strings.Join(missing, ", ")+", which the inserting code reads: the re-inserted message takes the default instead of the original's value (a copied message gets the time of the copy as INTERNALDATE)")
+		}
+	}
+	// also literals nested in another struct literal (Field stores of a struct value)
+	if n == 0 {
+		c.unresolvedRoot("option structs built by the in-memory backend itself")
+	}
+}
